@@ -316,7 +316,7 @@ def examine(fields, al, vseed, nvalues, all_cuts, want_lines=True):
         if not ok:
             return (("roundtrip", "deserialize(serialize(v) + %s) gives %s for v=%s (align=%s)" % (suffix.hex() or "-", obs, value, al)),
                     lines, canon, stats)
-        for k in cut_points(len(data), rng, 10 ** 9 if all_cuts else 12):
+        for k in cut_points(len(data), rng, 10 ** 9 if all_cuts else 48):
             stats["truncations"] += 1
             try:
                 got, rest = cls.deserialize(data[:k], align=al)
@@ -410,6 +410,62 @@ def invalid_value_lines(rng, fields, al):
     return ("ser-invalid", line, obs, False)
 
 
+# ---------------------------------------------------------------------------------------------- extraction cross-check
+def coq_def(fields):
+    return "[" + "; ".join("CInt %d" % f[1] if f[0] == "i" else "CBytes %d" % f[1] if f[0] == "b" else "CNested " + coq_def(f[1])
+                           for f in fields) + "]"
+
+
+def coq_val(fields, value):
+    parts = []
+    for f, v in zip(fields, value):
+        if f[0] == "i":
+            parts.append("VInt %d%%N" % (v % (1 << (8 * f[1]))))
+        elif f[0] == "b":
+            parts.append("VBytes [" + "; ".join("%d%%N" % b for b in bytes.fromhex(v)) + "]")
+        else:
+            parts.append("VStruct " + coq_val(f[1], v))
+    return "[" + "; ".join(parts) + "]"
+
+
+def kernel_sample(chk, model, sample):
+    """Guards the extraction step: the same terms evaluated inside coqc with vm_compute.
+    sample: list of (fields, al, value)."""
+    import re
+    pre = ("From Coq Require Import NArith List. Import ListNotations.\n"
+           "From ZB Require Import Base.Bytes Wire.CStruct.")
+    terms, lines = [], []
+    for fields, al, value in sample:
+        b = "true" if al else "false"
+        d = coq_def(fields)
+        terms.append("(cs_size %s %s, cs_alignment %s %s, cs_padded %s %s)" % (b, d, b, d, b, d))
+        terms.append("cs_serialize %s %s %s" % (b, d, coq_val(fields, value)))
+        lines.append("layout %s %s" % ("1" if al else "0", def_tokens(fields)))
+        lines.append("ser %s %s / %s" % ("1" if al else "0", def_tokens(fields), val_tokens(fields, value)))
+    try:
+        res = common.coq_eval(chk.pid + "cs", (pre, terms))
+    except BuildBroken as b:
+        chk.oblige("extraction-vs-kernel(cstruct)", False, str(b))
+        chk.broken.append(b)
+        return
+    outs = model.batch(lines)
+    ok = len(res) == len(terms)
+    bad = ""
+    for i in range(0, min(len(res), len(terms)), 2):
+        lay = outs[i].split()
+        exp_lay = "(%s,%s,[%s])" % (lay[0], lay[1], ";".join("(%s,%s)" % tuple(x.split(":")) for x in lay[2].split(",")))
+        got_lay = re.sub(r"%nat|%N|\s", "", res[i])
+        data = bytes.fromhex(outs[i + 1]) if outs[i + 1] not in ("-", "VE") else b""
+        exp_ser = "Some[%s]" % ";".join(str(x) for x in data)
+        got_ser = re.sub(r"%nat|%N|\s", "", res[i + 1])
+        if got_lay != exp_lay or got_ser != exp_ser:
+            ok, bad = False, "%s | kernel %s / %s | extracted %s / %s" % (terms[i], got_lay, got_ser[:80], exp_lay, exp_ser[:80])
+            break
+    chk.oblige("extraction-vs-kernel(cstruct: vm_compute sample of %d layouts + encodings)" % len(sample), ok, bad[:300])
+    if not ok:
+        chk.broken.append(BuildBroken("extraction", "extracted CStruct model disagrees with in-kernel evaluation", bad))
+
+
 # ---------------------------------------------------------------------------------------------- run_cstruct
 DIRECTED = [
     [["i", 1, 0], ["i", 2, 0], ["i", 1, 0]],
@@ -478,6 +534,12 @@ def run_cstruct(chk, model=None):
                 if il is not None:
                     all_lines.append((ci, il[0], il[1], il[2], il[3]))
     chk.count("cstruct_truncations", n_trunc)
+    if model is not None and not mon_fail:
+        ks = []
+        for c in cases[:8] + cases[len(DIRECTED) * 2::max(1, len(cases) // 16)][:16]:
+            if count_fields(c["fields"]) <= 10:
+                ks.append((c["fields"], c["align"], gen_value(random.Random(c["vseed"]), c["fields"])))
+        kernel_sample(chk, model, ks)
     # ---- model side
     tie_bad = {}
     spec_bad = None
@@ -861,8 +923,11 @@ def replay_case(case):
         except Exception as e:  # noqa: BLE001
             mon, lines = ("impl-exception", "%s: %s" % (type(e).__name__, e)), []
         outs = model.batch([l[1] for l in lines]) if model and lines else [None] * len(lines)
-        for (st, line, exp, _), out in zip(lines[:12], outs[:12]):
-            print("  %-12s %s\n     impl : %s\n     model: %s" % (st, line[:160], exp[:160], (out or "?")[:160]))
+        for (st, line, exp, is_spec), out in zip(lines[:12], outs[:12]):
+            if is_spec:
+                print("  %-12s %s\n     extracted spec on the impl's layout (layout rule, total-size rule; 1 = holds): %s" % (st, line[:160], out or "?"))
+            else:
+                print("  %-12s %s\n     impl : %s\n     model: %s" % (st, line[:160], exp[:160], (out or "?")[:160]))
         print("monitor: %s" % (mon[1] if mon else "ok"))
         return 1 if mon else 0
     if kind in ("nvram-addr", "nvram-aps"):
